@@ -579,7 +579,7 @@ impl<'a> Core<'a> {
                 fp_shape = crate::monitor::loose_shape(&self.mem, heap_reg, free_reg, &roots);
             }
             if let Some(sh) = fp_shape {
-                if let Err(v) = self.fp.at_marker(&self.mem, &sh, consecutive) {
+                if let Err(v) = self.fp.at_marker(&self.mem, &sh, consecutive, stride) {
                     let m = self.out.markers;
                     self.soft(Viol::new(v.class, format!("{} (statement boundary #{})", v.msg, m)));
                 }
